@@ -217,6 +217,10 @@ class MemOrchestrator(BaseOrchestrator):
         """Registers new invocations and sets them to REGISTERED status."""
         status_record = InvocationStatusRecord(InvocationStatus.REGISTERED, runner_id)
         for invocation in invocations:
+            if invocation.invocation_id in self.invocation_status_record:
+                # "register ... if they don't exist yet": an invocation that is already
+                # known keeps its status, owner and retry count (SQLite: ON CONFLICT DO NOTHING)
+                continue
             self._interanl_atomic_status_transition(
                 invocation.invocation_id, None, status_record
             )
